@@ -78,7 +78,12 @@ func genJMap(t *rapid.T, d int) map[string]interface{} {
 	m := map[string]interface{}{}
 	n := rapid.IntRange(0, 4).Draw(t, "mn")
 	for i := 0; i < n; i++ {
-		m[genJStr(t, "key")] = genJVal(t, d)
+		k := genJStr(t, "key")
+		if rapid.IntRange(0, 5).Draw(t, "wkkey") == 3 {
+			// names that mean something to the library elsewhere (default tags, reserved keys) or to formats built on JSON
+			k = rapid.SampledFrom([]string{"object", "object", "doc", "element", "stream", "$", "$ref", "@id", "-id", "#text", "xmlns", "nil", "type", "length", "__proto__"}).Draw(t, "wkk")
+		}
+		m[k] = genJVal(t, d)
 	}
 	return m
 }
